@@ -340,6 +340,9 @@ def main():
     for k, v in merged["known_hits"].items():
         known_hits[k] = known_hits.get(k, 0) + v
     hard_errors = [e for e in errors if "timed out" not in e[2]]
+    for i, spec, msg in errors:
+        if "timed out" in msg:
+            print(f"INCONCLUSIVE shard {i} {spec.get('sub')}/{spec.get('kind')}: {msg}", file=sys.stderr)
     if hard_errors:
         for i, spec, msg in hard_errors:
             print(f"HARNESS-ERROR in shard {i} {spec}: {msg}", file=sys.stderr)
